@@ -55,7 +55,9 @@ func init() {
 			if o.Type == "Query" {
 				k = kinds[j%2]
 			}
-			modes[o.Type+"."+f.Name] = world.Mode{Kind: k, Ctx: true, K: -100}
+			// NumParallelInvocationsFunc: not set, or asking for 2, 0, as many as there are
+			// sources, a negative number
+			modes[o.Type+"."+f.Name] = world.Mode{Kind: k, Ctx: true, K: []int{-100, 2, 0, 1000, -1}[(j+len(o.Type))%5]}
 		}
 	}
 	var err error
